@@ -67,8 +67,8 @@ Lemma mv_delta o a b : mv o a b -> SI a -> delta_ok (fun code => In code sl_code
 Proof.
   intros M HS. destruct M.
   - (* lite *)
-    destruct H0 as (SC & (l & E & F) & _). unfold same_core in SC. decompose [and] SC.
-    split; [|split; [lia | intros; split; congruence]].
+    destruct H0 as (SC & (l & E & F) & _). unfold same_core in SC. destruct SC as (_ & _ & _ & _ & S5 & _ & S7 & _).
+    split; [|split; [rewrite S5; apply N.le_refl | intros; split; congruence]].
     exists l. split; [assumption|]. eapply Forall_impl; [|exact F]. intros x Hx. left. assumption.
   - apply delta_goaway. assumption.
   - apply delta_same; sc_rw; reflexivity.
@@ -89,8 +89,8 @@ Proof.
   - eapply delta_one; [rewrite sc_out_release_stream; reflexivity | | sc_rw; reflexivity | sc_rw; reflexivity].
     right. right. right. right. left. eauto.
   - (* returned: the frames of the response *)
-    destruct H0 as (SC & (l & E & F) & _). unfold same_core in SC. decompose [and] SC.
-    split; [|sc_rw; split; [lia | intros; split; congruence]].
+    destruct H0 as (SC & (l & E & F) & _). unfold same_core in SC. destruct SC as (_ & _ & _ & _ & S5 & _ & S7 & _).
+    split; [|sc_rw; split; [rewrite S5; apply N.le_refl | intros; split; congruence]].
     exists l. rewrite sc_out_put. split; [assumption|]. eapply Forall_impl; [|exact F]. intros y Hy. left. assumption.
   - eapply delta_one; [reflexivity | | reflexivity | reflexivity]. right. right. right. right. right. left. eauto.
   - eapply delta_one; [reflexivity | | reflexivity | reflexivity]. right. right. right. right. right. left. eauto.
